@@ -225,7 +225,21 @@ pub fn completion_sweep(ctx: &Ctx) -> Acc {
         Act::Cancel { id: 0 },
         Act::CancelRtx { id: 0 },
     ];
-    interventions(ctx, "C05", false, &acts)
+    let mut acts = acts.to_vec();
+    // what a response says (401 / 438 challenge with REALM and NONCE, 300 with ALTERNATE-SERVER,
+    // XOR-MAPPED-ADDRESS, 420) never changes what happens to its transaction
+    for f in RESP_FLAVOURS {
+        acts.push(Act::Resp { id: 0, class: f, auth: Auth::None, from: 0 });
+    }
+    let plain = interventions(ctx, "C05", false, &acts);
+    // the same for an authenticated request with remote credentials R1: unsigned, signed by R1, by R2
+    let mut sealed = vec![Act::Resp { id: 0, class: 2, auth: Auth::Sha1(1), from: 0 }, Act::Resp { id: 0, class: 3, auth: Auth::None, from: 0 }];
+    for f in RESP_FLAVOURS {
+        for auth in [Auth::None, Auth::Sha1(1), Auth::Sha1(2)] {
+            sealed.push(Act::Resp { id: 0, class: f, auth, from: 0 });
+        }
+    }
+    plain.merge(interventions(ctx, "C05", true, &sealed))
 }
 
 /// C18: every transmission of every schedule of the family carries the request's bytes and
@@ -236,6 +250,8 @@ pub fn transmission_sweep(ctx: &Ctx) -> Acc {
     acts.push(Act::CancelRtx { id: 0 });
     acts.push(Act::Resp { id: 0, class: 2, auth: Auth::Sha1(2), from: 2 });
     acts.push(Act::SendOther { kind: 3, dest: 1 });
+    acts.push(Act::SendOther { kind: DATA_KIND, dest: 2 });
+    acts.push(Act::Send { id: 1, dest: 2, seal: Seal::None, shape: 1 });
     interventions(ctx, "C18", true, &acts)
 }
 
@@ -249,6 +265,11 @@ pub fn forgery_sweep(ctx: &Ctx) -> Acc {
     }
     acts.push(Act::Resp { id: 0, class: 3, auth: Auth::None, from: 2 });
     acts.push(Act::Resp { id: 0, class: 3, auth: Auth::Sha1(1), from: 2 });
+    for f in RESP_FLAVOURS {
+        for auth in [Auth::None, Auth::Sha1(2), Auth::Sha1(1)] {
+            acts.push(Act::Resp { id: 0, class: f, auth, from: 0 });
+        }
+    }
     interventions(ctx, "C07", true, &acts)
 }
 
